@@ -331,7 +331,7 @@ def decTcpTok (t : String) : Option (List Prov.Outcome) :=
 def decScript (kind : String) (s : String) : Option (List Prov.Outcome) :=
   if s == "-" then some [] else
   let toks := s.splitOn ","
-  if kind == "serial" then
+  if kind == "serial" || kind == "serialbw" then
     ((List.range toks.length).zip toks).foldlM (fun acc (it : Nat × String) => do
       let o ← decSerialTok it.1 it.2
       pure (acc ++ o)) []
